@@ -26,6 +26,8 @@ def psi_function(geometry):
         # mirror images of udn / ldn (same sign conventions)
         "ldn_m": lambda R, Z: g(R, Z, 0.0) + g(R, Z, 2 * z0 + 0.002) + g(R, Z, -2 * z0),
         "udn_m": lambda R, Z: -g(R, Z, 0.0) - g(R, Z, 2 * z0) - g(R, Z, -2 * z0 - 0.003),
+        # a connected double null as met in practice: the two X-points are not exactly balanced (psi differs by 2.5e-4 of the range)
+        "cdn_unbal": lambda R, Z: g(R, Z, 0.0) + g(R, Z, -2 * z0 - 0.0001) + g(R, Z, 2 * z0),
         "udn2": lambda R, Z: g(R, Z, 0.0) + g(R, Z, -2 * z0 - 0.02) + g(R, Z, 2 * z0),
         # a lower single null whose X-point is tilted (lower lobe shifted in R): region joins oblique to the R and Z axes
         "lsn_tilt": lambda R, Z: g(R, Z, 0.3 - z0) + np.exp(-((R - (r0 + 0.08)) ** 2 + (Z - (-0.3 - z0)) ** 2) / 0.3**2),
